@@ -342,7 +342,8 @@ def u_plane_intersection(dn=0, ds=0):
                 eq('the point at that distance along the normal lies on the plane', dot(n, hit), d, scale=4 * B)]
 
     return Unit(f'plane_intersection[{DIRS3[dn]},{DIRS3[ds]}]', 'Plane3::intersection_distance', make, post, base=base,
-                inputs={'d': d, 'px': p[0], 'py': p[1], 'pz': p[2]}, replay=None, bounds={'normals': 'direction classes', 'd, point': '|.| <= 1e3'})
+                inputs={'d': d, 'px': p[0], 'py': p[1], 'pz': p[2]},
+                replay=('plane_intersection', lambda mm: {'n': [float(x) / NORM3[dn] for x in DIRS3[dn]], 's': [float(x) / NORM3[ds] for x in DIRS3[ds]], 'd': mm['d'], 'p': [mm['px'], mm['py'], mm['pz']]}), bounds={'normals': 'direction classes', 'd, point': '|.| <= 1e3'})
 
 
 # ------------------------------------------------------------------------------------------------ principal axes
@@ -533,7 +534,12 @@ def u_basis_ops(D=2, v=0):
         obs.append(holds('smallest() is the last basis vector', z3.And([vec_of(r['smallest'])[k] == V[D - 1][k] for k in range(D)])))
         return obs
 
-    return Unit(f'basis_ops[D={D},V={"symbolic orthonormal" if v is None else v}]', composite, make, post, base=base, inputs=inp, replay=None, const_generics={'D': D},
+    def rep(mm):
+        rows = [[mm[f'V{i}{j}'] for j in range(D)] for i in range(D)] if v is None else [[float(z3.simplify(x).as_fraction()) for x in row] for row in V]
+        return {'basis': rows, 'sv': [mm[f'S{i}'] for i in range(D)], 'center': [mm['c' + 'xyz'[t]] for t in range(D)], 'q': [mm['q' + 'xyz'[t]] for t in range(D)],
+                'tol': mm['tol'], 'n': int(mm['n'])}
+
+    return Unit(f'basis_ops[D={D},V={"symbolic orthonormal" if v is None else v}]', composite, make, post, base=base, inputs=inp, replay=('basis_ops', rep), const_generics={'D': D},
                 loop_budget=64, bounds={'basis': 'symbolic orthonormal matrix' if v is None else 'rational orthonormal matrix #%d' % v, 'centre, point': '|coords| <= 1e3',
                                         'singular values': 'non-increasing in [0, 1e3]', 'n': '[D+1, 1e5]'},
                 assumptions=['the basis rows are orthonormal (contract of the decomposition, see svd_matrix units)'], timeout_ms=20000)
@@ -576,7 +582,52 @@ def j_mean(o, rep, out):
     return 'mean point is not the (weighted) mean' if not np.isfinite(got).all() or np.abs(got - want).max() > 1e-7 * (1 + np.abs(pts).max()) else False
 
 
-JUDGES = {'frame': j_frame, 'frame_degenerate': j_frame, 'plane': j_plane, 'svd_matrix': j_svd_matrix, 'mean_point': j_mean}
+def j_basis_ops(o, rep, out):
+    import numpy as np
+    if 'ok' not in out:
+        return 'panic'
+    r, a = out['ok'], rep['args']
+    V, c, q, sv = np.array(a['basis'], float), np.array(a['center'], float), np.array(a['q'], float), np.array(a['sv'], float)
+    S = 1 + np.abs(c).max() + np.abs(q).max()
+    g = lambda k: np.array([float(x) if not isinstance(x, str) else np.nan for x in r[k]])
+    tol = 1e-6 * S
+    if not all(np.isfinite(g(k)).all() for k in ('to_basis', 'round_trip', 'center_in_basis', 'origin_back', 'vec_to_basis', 'variances')):
+        return 'non-finite basis coordinates'
+    if np.abs(g('to_basis') - V @ (q - c)).max() > tol:
+        return 'to-basis coordinates are not the projections of (q - centre)'
+    if np.abs(g('round_trip') - q).max() > tol:
+        return 'to-basis / from-basis round trip does not restore the point'
+    if np.abs(g('center_in_basis')).max() > tol:
+        return 'the centre does not have basis coordinates 0'
+    if np.abs(g('origin_back') - c).max() > tol:
+        return 'the basis origin does not map back to the centre'
+    if np.abs(g('vec_to_basis') - V @ q).max() > tol:
+        return 'vec_to_basis is not the projection on the basis vectors'
+    if np.abs(g('variances') * a['n'] - sv * sv).max() > 1e-6 * (1 + (sv * sv).max()):
+        return 'variance is not sv^2 / n'
+    if r['rank'] != int((sv > a['tol']).sum()):
+        return 'rank does not count the singular values above the tolerance'
+    if np.abs(g('largest') - V[0]).max() > 0 or np.abs(g('smallest') - V[-1]).max() > 0:
+        return 'largest / smallest are not the first / last basis vector'
+    return False
+
+
+def j_plane_intersection(o, rep, out):
+    import numpy as np
+    if 'ok' not in out:
+        return 'panic'
+    r, a = out['ok'], rep['args']
+    dn = float(np.dot(a['n'], a['s']))
+    if 'none' in r:
+        return 'no intersection reported although the normal faces the plane' if dn > 1e-6 + 1e-12 else False
+    if dn <= 1e-6 - 1e-12:
+        return 'intersection reported for a normal facing away'
+    if isinstance(r['some'], str) or isinstance(r['sd_hit'], str) or abs(r['sd_hit']) > 1e-6 * (1 + abs(a['d']) + max(abs(x) for x in a['p'])) / max(dn, 1e-6):
+        return 'point at the reported distance is not on the plane'
+    return False
+
+
+JUDGES = {'frame': j_frame, 'frame_degenerate': j_frame, 'plane': j_plane, 'svd_matrix': j_svd_matrix, 'mean_point': j_mean, 'basis_ops': j_basis_ops, 'plane_intersection': j_plane_intersection}
 
 _SVD_Q = ([('u_svd_matrix', {'D': D, 'n': n, 'weights': w}) for (D, n) in ((2, 3), (3, 4)) for w in ('none', 'free', 'uniform')] +
           [('u_basis_ops', {'D': D, 'v': v}) for D in (2, 3) for v in (0, 1, 2)] + [('u_basis_ops', {'D': 2, 'v': None})] +
